@@ -565,7 +565,7 @@ def gen_ops(seed: int, run: int, tier: str, with_faults: bool) -> list[dict]:
     for _ in range(4):
         n = r.choice(sizes) if r.random() < 0.8 else r.choice([16, 131072, MIB])
         k = r.choice([1, 1, 2])
-        variant = r.choice(["plain", "plain", "fn", "loop"])
+        variant = r.choice(["plain", "plain", "fn", "loop", "tied"])
         reqs.append(f"fx::c15::big-{n}-{k}-{variant}-{r.randrange(1, 9)}")
     reqs += [r.choice(["fx::c15::net", "fx::c15::outer", "fx::c15::resconv_nchw", "fx::c15::cf_scan"])]
     paths = ["a.onnx", "sub/dir/b.onnx", "rel:c.onnx"]
